@@ -24,6 +24,11 @@ from vf.core import HOLDS, VIOLATION, INCONCLUSIVE
 from vf.symf import P
 
 ENGINE = "S"
+
+
+def _wr(run, ob, payload):
+    """replay file of this part (the aggregator dispatches on engine_part)"""
+    return run.write_replay(ob, dict(payload, engine_part="S"))
 FUNCS = ["proofs/src/transcript/mod.rs::CircuitTranscript::read", "proofs/src/transcript/mod.rs::CircuitTranscript::write",
          "proofs/src/transcript/mod.rs::CircuitTranscript::common", "proofs/src/plonk/mod.rs::VerifyingKey::hash_into",
          "proofs/src/plonk/verifier.rs::parse_trace", "proofs/src/plonk/verifier.rs::verify_algebraic_constraints",
@@ -113,7 +118,7 @@ def _settle(run, ob, r, bad, payload, ok_detail=""):
         ob.set(HOLDS, ok_detail, solver=r.solver, solver_s=r.time_s)
     elif r.status == "sat":
         payload = dict(payload, problems=bad)
-        ob.set(VIOLATION, "; ".join(bad)[:400], replay=run.write_replay(ob, payload))
+        ob.set(VIOLATION, "; ".join(bad)[:400], replay=_wr(run, ob, payload))
     else:
         ob.set(INCONCLUSIVE, f"solver {r.status}")
 
@@ -219,7 +224,7 @@ def check_injectivity(run, c, np_):
     elif r.status == "sat":
         payload = {"kind": "injectivity", "c": c, "np": np_}
         ob.set(VIOLATION if replay(payload) else INCONCLUSIVE, "two different statements are absorbed as the same sequence",
-               replay=run.write_replay(ob, payload))
+               replay=_wr(run, ob, payload))
     else:
         ob.set(INCONCLUSIVE, f"solver {r.status}, twin {tw.status}")
 
@@ -266,6 +271,8 @@ def check(run):
 
 
 def replay(payload):
+    if payload.get("engine_part") not in (None, "S") or payload.get("kind") not in ['injectivity', 'log']:
+        return None
     symf.build()
     if payload["kind"] == "injectivity":
         # re-derive the sequences from the real code and exhibit a colliding pair concretely
